@@ -24,7 +24,8 @@ RULE = ('Histories: player-list packets over a pool of 4 UUIDs (all five '
         'arithmetic (relative adds, absolute replaces, angles in [0,360) '
         'and congruent mod 360). Laws: every MutableRecord subclass of the '
         'library plus generated ones with inherited slots (==, hash, !=, '
-        'repr, iter), Vector/Position/generated subclasses (component-wise '
+        'repr, iter; the order in which classes of a hierarchy are first '
+        'used is part of the case), Vector/Position/generated subclasses (component-wise '
         '+ - neg * / //, result type of the vector operand), every alias '
         'helper use in the library plus generated ones (set/get/delete '
         'through alias and underlying attributes), every BitFieldEnum of '
